@@ -810,12 +810,22 @@ def run_large(ctx, cuqi, r, thorough):
         plan.append(("noise", kd, int(r.randint(8, 14)), 76))
     if thorough:
         plan = plan * 3
+    # correlated noise of SMALL absolute scale (std ~ 2^-17 ≈ 1e-5 on 76 data points): the eigenvalue cutoff of the eigen route
+    # must be relative to the spectrum (own random stream; kind alternates with the seed)
+    r_small = np.random.RandomState(ctx.seed + 6066)
+    plan.append(("noise-small", ["cov", "sqrtcov"][ctx.seed % 2], int(r_small.randint(6, 10)), 76))
     for i, (where, kd, n, m) in enumerate(plan):
         iface = ["exp", "legacy"][(i + ctx.seed) % 2]
+        small = where == "noise-small"
+        if small:
+            where = "noise"; r_main, r = r, r_small
         A = r.randint(-2, 3, size=(m, n)).astype(float)
         d = (r.randint(-6, 7, size=m) / 2.0).astype(float)
         mean = r.randint(-3, 4, size=n).astype(float)
         lsp = large_spec(r, m, kd) if where == "noise" else gen_spec(r, m, force=("cov", "scalar"))
+        if small:
+            f = 2.0 ** (-34 if kd == "cov" else -17)        # exact scaling: covariance 2^-34 · (banded SPD)
+            lsp = {**lsp, "value": lsp["value"] * f, "doc_prec": lsp["doc_prec"] * 2.0 ** 34, "tag": lsp["tag"] + "-scale2^-34"}
         psp = large_spec(r, n, kd) if where == "prior" else gen_spec(r, n, force=("prec", "vector"))
         cfg = {"n": n, "iface": iface, "backing": "matrix", "target": "posterior", "special": "large",
                "liks": [{"m": m, "A": A, "d": d, "spec": lsp}],
@@ -827,10 +837,18 @@ def run_large(ctx, cuqi, r, thorough):
             with quiet():
                 target, _, _ = build_target(cuqi, cfg)
                 runner = StepRunner(cuqi, cfg, target, maxit=maxit_for(n), tol=1e-13)
-                m_impl, B_impl, e, xa, xb = read_affine(runner, r, n)
+                if small:
+                    sm_, sbig_, tvec_ = probe_lengths(cfg, runner, None)
+                    m_impl, B_impl, e, xa, xb = read_affine(runner, r, n, sx=sm_, tvec=tvec_, sbig=sm_)
+                else:
+                    m_impl, B_impl, e, xa, xb = read_affine(runner, r, n)
                 chain = (runner.chain_draws, runner.chain_states)
                 L1, L2, _ = leaf_factors(runner)
+            if small:
+                r = r_main
         except Exception as ex:
+            if small:
+                r = r_main
             ctx.disagree(key + ":refusal", desc, "accepted", repr(ex)[:160], "implementation refuses a valid linear-Gaussian target")
             ctx.fail(key + ":refusal", desc, "one exact posterior draw", repr(ex)[:160], "sampler cannot be built / stepped on a valid target")
             continue
